@@ -133,8 +133,10 @@ func runC14(vals []int, keepLog bool) (*sim.World, map[string]int) {
 	if pre.Intn("shiftsign", 2) == 1 {
 		k = -(k%100 + 1)
 	}
-	small, sec := pre.Intn("shiftsmall", 3), pre.Intn("shiftsec", 1000)
-	_ = sec
+	small, incs := pre.Intn("shiftsmall", 3), pre.Intn("shiftsec", 1000)
+	if k < 0 {
+		incs = -incs
+	}
 	if small == 0 {
 		k = k % 3
 		if k == 0 {
@@ -147,7 +149,10 @@ func runC14(vals []int, keepLog bool) (*sim.World, map[string]int) {
 		rest = vals[pre.pos:]
 	}
 	a := RunSoloScript(&ReplaySrc{Vals: rest}, nil, keepLog, SoloShape{})
-	b := RunSoloScript(&ReplaySrc{Vals: rest}, nil, false, SoloShape{Shift: delta})
+	// plus a drawn number of timestamp increments of the script's own configuration: the offset stays a multiple
+	// of the increment without being a multiple of a millisecond
+	b := RunSoloScript(&ReplaySrc{Vals: rest}, nil, false, SoloShape{Shift: delta, ShiftIncs: incs})
+	delta = b.Shift
 	time.Sleep(1500 * time.Microsecond)
 	c := RunSoloScript(&ReplaySrc{Vals: rest}, nil, false, SoloShape{})
 	w := a.S.W
@@ -195,7 +200,7 @@ func runC14(vals []int, keepLog bool) (*sim.World, map[string]int) {
 	}
 	// the same calls with the same arguments (the peers' proposals and the previous block keep their
 	// timestamps), only the injected clock differs by the offset: same payload sequence, same timer durations
-	co := RunSoloScript(&ReplaySrc{Vals: rest}, nil, false, SoloShape{Shift: delta, ClockOnly: true})
+	co := RunSoloScript(&ReplaySrc{Vals: rest}, nil, false, SoloShape{Shift: b.Shift, ClockOnly: true})
 	if d := diff(norm(summarizeKinds(a)), norm(summarizeKinds(co))); d != "" {
 		w.Fail("C14", fmt.Sprintf("behaviour depends on how the injected clock relates to the data it is given: only the clock shifted by %s, same calls: %s", delta, d), "clock-only-shift-changes-behaviour")
 	}
